@@ -54,6 +54,15 @@ theorem varGet_ok (s : Option Nat) (h : H) (size : Nat) (data : Option Mem) : (v
   cases data <;> cases s <;> simp [rangeIn]
   omega
 
+theorem lateVar_ok (late : Bool) (r : Res) (size : Nat) (h : r.ok size) : (lateVar late r).ok size := by
+  unfold lateVar
+  split
+  · split
+    · obtain ⟨hb, _⟩ := h
+      exact ⟨by simpa [Res.inBounds] using hb, by simp [Res.retDefined]⟩
+    · exact h
+  · exact h
+
 theorem varSet_ok (sizeOff fixed cap eS eB : Nat) (h h2 : H) (size : Nat) (data : Option Mem)
     (hoff : sizeOff + 4 ≤ fixed) : (varSet sizeOff fixed cap eS eB h size data h2).ok size := by
   unfold varSet
@@ -248,9 +257,9 @@ theorem withHandle_ok (h : H) (cmd : Int) (size : Nat) (data : Option Mem) : (wi
   case k1080 =>
     split_ifs <;> first | c17_leaf | (cases data <;> c17_leaf)
   case k10F1 =>
-    split_ifs <;> first | c17_leaf | (apply varSet_ok; decide)
+    split_ifs <;> first | c17_leaf | (apply lateVar_ok; apply varSet_ok; decide)
   case k1400 =>
-    split_ifs <;> first | c17_leaf | (apply varSet_ok; decide)
+    split_ifs <;> first | c17_leaf | (apply lateVar_ok; apply varSet_ok; decide)
   case k10CD =>
     apply guardEq_ok; intro m hm hs'
     split <;> c17_leaf
